@@ -336,6 +336,36 @@ def frozen_case(rep):
         rep.side(f'frozen/level-status-name-on-step.status/{attr}', hasattr(L2.status, attr) and _raises(lambda: setattr(S2.status, attr, 1), (TypeError,)) is True)
     for attr in ('restart', 'restarts_in_a_row'):
         rep.side(f'frozen/step-status-name-on-level.status/{attr}', hasattr(S2.status, attr) and _raises(lambda: setattr(L2.status, attr, 1), (TypeError,)) is True)
+    # the status containers of convergence controllers (pySDC.core.convergence_controller.Status): each accepts the names IT was created with only --
+    # neither the names of another container nor names declared later for other containers, in either order of creation
+    from pySDC.core.convergence_controller import Status as CCStatus
+
+    a, b = CCStatus(['c20_alpha', 'c20_shared']), CCStatus(['c20_beta', 'c20_shared'])
+    a.c20_alpha, b.c20_beta, a.c20_shared = 1, 2, 3
+    rep.side('frozen/cc-status/own-names-assignable', a.c20_alpha == 1 and b.c20_beta == 2 and a.c20_shared == 3 and b.c20_shared is None)
+    rep.side('frozen/cc-status/name-of-another-container/later-one', _raises(lambda: setattr(a, 'c20_beta', 1), (TypeError,)) is True)
+    rep.side('frozen/cc-status/name-of-another-container/earlier-one', _raises(lambda: setattr(b, 'c20_alpha', 1), (TypeError,)) is True)
+    rep.side('frozen/cc-status/undeclared', _raises(lambda: setattr(a, 'c20_gamma', 1), (TypeError,)) is True)
+    # ... and on the containers of shipped controllers living in one real controller (names of one assigned on the other)
+    from pySDC.implementations.convergence_controller_classes.interpolate_between_restarts import InterpolateBetweenRestarts
+    from pySDC.implementations.convergence_controller_classes.estimate_extrapolation_error import EstimateExtrapolationErrorNonMPI
+
+    d3 = valid_desc(1)
+    d3['convergence_controllers'] = {InterpolateBetweenRestarts: {}, EstimateExtrapolationErrorNonMPI: {}}
+    try:
+        ctl3 = controller_nonMPI(1, dict(CP, mssdc_jac=False), d3)
+        conts = [(f'{type(C).__name__}.{k}', v) for C in ctl3.convergence_controllers for k, v in vars(C).items() if isinstance(v, CCStatus)]
+        names = {n: [k for k in vars(st) if not k.startswith('_')] for n, st in conts}
+        rep.side('frozen/cc-status/shipped/two-containers-present', len([n for n in names if names[n]]) >= 2, {k: v for k, v in names.items()})
+        for n1, st1 in conts:
+            for n2, st2 in conts:
+                if st1 is st2:
+                    continue
+                for attr in names[n2]:
+                    if attr not in names[n1]:
+                        rep.side(f'frozen/cc-status/shipped/{n1}-rejects-{attr}-of-{n2}', _raises(lambda: setattr(st1, attr, 1), (TypeError,)) is True)
+    except Exception as e:
+        rep.side('frozen/cc-status/shipped/controller-built', False, f'{type(e).__name__}: {e}')
     P = L.prob
     ro = sorted(P._parNamesReadOnly)
     rep.side('readonly/has-readonly-params', len(ro) >= 1, ro)
